@@ -207,6 +207,11 @@ enum Gram
     G_UNDECIDED
 };
 
+// The statement lists "cn content" among the positions of a CellML real (exponent part allowed).  The library only allows a
+// *basic* real there (it cites section 2.12.5.1 of the CellML 2.0 specification for rule MATH_CN_FORMAT), so <cn>1e5</cn> is reported.  true = judge by the
+// statement as written (the deviation is then a recorded finding); false = only monitor such strings for exceptions.
+const bool kJudgeCnExponentForms = true;
+
 // what the statement says about text `s` (already stripped for content positions) at position p
 Gram grammar(int p, const std::string &s)
 {
@@ -215,6 +220,9 @@ Gram grammar(int p, const std::string &s)
     }
     bool he = false;
     bool r = refReal(s, &he);
+    if (p == P_CN && r && he && !kJudgeCnExponentForms) {
+        return G_UNDECIDED;
+    }
     if (p == P_EN_MANTISSA && r && he) {
         // The statement names "cn content" (real) and "e-notation exponent" (integer); whether a mantissa may itself
         // carry an exponent is not stated.  Such strings are only monitored for exceptions.
@@ -808,7 +816,7 @@ void judgeAttr(int p, const std::string &s, const Obs &o, int &nAcc, int &nRej)
 // have the same expected verdict; bisect on mismatch or exception.
 // =====================================================================================================
 
-size_t kCnChunk = getenv("C16_CHUNK") ? atoi(getenv("C16_CHUNK")) : 64;
+const size_t kCnChunk = 250;
 
 // returns number of MATH_CN_FORMAT issues; may throw
 int cnIssues(int p, const std::vector<const std::string *> &items, bool monitor)
@@ -1097,8 +1105,14 @@ std::string magClass(double d)
         // |d| so close to DBL_MAX that its 15-significant-digit decimal exceeds DBL_MAX
         char buf[64];
         snprintf(buf, sizeof buf, "%.15g", a);
-        if (std::isinf(strtod(buf, nullptr))) {
+        errno = 0;
+        double back = strtod(buf, nullptr);
+        if (std::isinf(back)) {
             return "rounds-above-DBL_MAX";
+        }
+        if (!std::isnormal(back)) {
+            // a normal double next to DBL_MIN whose 15-significant-digit decimal is below DBL_MIN
+            return "rounds-to-subnormal";
         }
     }
     if (a >= 1e300) {
